@@ -161,12 +161,19 @@ func (sc *SlotChain) AddStatSlot(s StatSlot) {
 // The entrance of slot chain
 // Return the TokenResult and nil if internal panic.
 func (sc *SlotChain) Entry(ctx *EntryContext) *TokenResult {
+	// statStarted tells whether the statistic slots have been (or are being) notified of the outcome.
+	statStarted := false
 	// This should not happen, unless there are errors existing in Sentinel internal.
 	// If happened, need to add TokenResult in EntryContext
 	defer func() {
 		if err := recover(); err != nil {
 			logging.Error(errors.Errorf("%+v", err), "Sentinel internal panic in SlotChain.Entry()")
 			ctx.SetError(errors.Errorf("%+v", err))
+			if !statStarted {
+				// The request is let through, but no StatSlot has recorded it as passed,
+				// so there is nothing to complete when the entry exits.
+				ctx.statSkipped = true
+			}
 			return
 		}
 	}()
@@ -206,6 +213,7 @@ func (sc *SlotChain) Entry(ctx *EntryContext) *TokenResult {
 	// execute statistic slot
 	ss := sc.stats
 	ruleCheckRet = ctx.RuleCheckResult
+	statStarted = true
 	if len(ss) > 0 {
 		for _, s := range ss {
 			// indicate the result of rule based checking slot.
@@ -228,6 +236,11 @@ func (sc *SlotChain) exit(ctx *EntryContext) {
 	}
 	// The OnCompleted is called only when entry passed
 	if ctx.IsBlocked() {
+		return
+	}
+	// ... and only when the StatSlots were told that it passed (not the case if a
+	// prepare slot or a rule check slot panicked and the request was let through).
+	if ctx.statSkipped {
 		return
 	}
 	for _, s := range sc.stats {
